@@ -18,6 +18,11 @@ pub const TAG_DUTY_NO_WAKE: &str = "sx126x-dutycycle-no-wake";
 pub const TAG_RX_READ_ERROR: &str = "rx-read-error-keeps-receive-mode";
 /// init() that fails right after pulsing NRESET keeps the stale radio_mode (and, on the SX127x, never selects the LoRa page)
 pub const TAG_INIT_FAULT: &str = "init-fault-stale-state";
+/// Narrower successors of the two tags above, for what is left after the /repo fixes:
+/// only `complete_rx` still polls an SX126x that may be in an RxDutyCycle sleep phase, and only the
+/// SX127x still depends on the LoRa page selected inside `reset()`.
+pub const TAG_DUTY_COMPLETE_RX: &str = "sx126x-dutycycle-complete-rx-polls-asleep";
+pub const TAG_INIT_FAULT_127X: &str = "sx127x-init-fault-lora-page";
 
 /// Driver-side mode, as a comparable value (RadioMode has no Debug/Eq).
 #[derive(Clone, Copy, Debug, PartialEq, Eq)]
@@ -454,7 +459,7 @@ impl<'a, RK: RadioKind> Exec<'a, RK> {
                 *m = RxM::Continuous;
             }
         }
-        if has(case, TAG_INIT_FAULT) && matches!(step.op, Op::Init) && step.fault.map(|f| f.at <= 1).unwrap_or(false) {
+        if (has(case, TAG_INIT_FAULT) || (has(case, TAG_INIT_FAULT_127X) && !self.is_126x)) && matches!(step.op, Op::Init) && step.fault.map(|f| f.at <= 1).unwrap_or(false) {
             step.fault = None;
         }
         let mut drop_spurious = false;
@@ -462,7 +467,9 @@ impl<'a, RK: RadioKind> Exec<'a, RK> {
             drop_spurious = true;
         }
         self.world.borrow_mut().env.now_us += step.gap_us as u64;
-        if has(case, TAG_DUTY_NO_WAKE) && self.is_126x && hm0 == M::RxDuty && matches!(step.op, Op::StartRx | Op::CompleteRx { .. } | Op::Rx { .. } | Op::SwitchChannel { .. } | Op::LwRxSingle { .. } | Op::LwRxContinuous { .. }) {
+        let duty_all = has(case, TAG_DUTY_NO_WAKE) && matches!(step.op, Op::StartRx | Op::CompleteRx { .. } | Op::Rx { .. } | Op::SwitchChannel { .. } | Op::LwRxSingle { .. } | Op::LwRxContinuous { .. });
+        let duty_complete_only = has(case, TAG_DUTY_COMPLETE_RX) && matches!(step.op, Op::CompleteRx { .. });
+        if (duty_all || duty_complete_only) && self.is_126x && hm0 == M::RxDuty {
             drop_spurious = true;
             let mut w = self.world.borrow_mut();
             let w = &mut *w;
